@@ -514,3 +514,109 @@ Proof.
   destruct (core_fields _ _ K1) as (D1 & D2 & D3 & D4 & D5 & D6 & D7 & D8 & D9 & D10 & D11 & D12). sim.
   eexists; split; [reflexivity|]. sim. repeat split; auto.
 Qed.
+
+(* ---------------------------------------------------------------- the writer accepts an ok script and writes its blocks *)
+Lemma zlen_snoc {X} (l : list X) x : zlen (l ++ [x]) = zlen l + 1.
+Proof. rewrite zlen_app. reflexivity. Qed.
+Lemma zlen_map {X Y} (f : X -> Y) l : zlen (map f l) = zlen l.
+Proof. unfold zlen. rewrite map_length. reflexivity. Qed.
+
+Lemma wrun_ok : forall ops ws, ops_ok ws ops -> zlen ws + zlen ops < 4294967296 ->
+  wrun (zlen ws) ops = map (fun op => (enc_op op, true)) ops.
+Proof.
+  induction ops as [|op t IH]; intros ws Hok Hb; [reflexivity|].
+  replace (zlen (op :: t)) with (zlen t + 1) in Hb by (unfold zlen; cbn [length]; lia).
+  pose proof (zlen_nonneg ws). pose proof (zlen_nonneg t).
+  destruct op as [w|ifid ts caplen len data o|ifid st|ty pl]; cbn [ops_ok] in Hok; try contradiction.
+  - destruct Hok as (Hw & Hok). cbn [wrun wstep map enc_op]. rewrite u32_small by lia.
+    rewrite <- zlen_snoc with (x := w). rewrite IH; [reflexivity|exact Hok|rewrite zlen_snoc; lia].
+  - destruct Hok as (Hwf & Hok). cbn [wrun wstep map enc_op].
+    destruct Hwf as (_ & Hcap & Hcl & _ & _ & _ & Hid & i & _ & _ & _ & Hlt). rewrite zlen_map in Hlt.
+    assert (zlen ws <=? ifid = false) as -> by lia. assert (ifid <? 0 = false) as -> by lia. cbn [orb].
+    assert (caplen =? zlen data = true) as -> by lia. cbn [negb].
+    assert (len <? caplen = false) as -> by lia.
+    rewrite IH; [reflexivity|exact Hok|lia].
+Qed.
+
+Lemma write_file_shape sec i0 ops : ops_ok [] (WAddIf i0 :: ops) -> zlen ops < 4294967290 ->
+  write_file sec i0 ops = enc_shb sec ++ enc_ops (WAddIf i0 :: ops)
+  /\ Forall (fun r => snd r = true) (write_blocks sec i0 ops).
+Proof.
+  intros Hok Hb. cbn [ops_ok app] in Hok. destruct Hok as (Hw & Hok).
+  unfold write_file, write_blocks. change 1 with (zlen [i0]).
+  rewrite (wrun_ok ops [i0] Hok) by (change (zlen [i0]) with 1; lia).
+  cbn [map concat fst]. rewrite map_map. cbn [fst]. split.
+  - unfold enc_ops. cbn [map concat enc_op]. rewrite <- app_assoc. reflexivity.
+  - constructor; [reflexivity|]. rewrite Forall_map. apply Forall_forall. intros; reflexivity.
+Qed.
+
+(* ---------------------------------------------------------------- sizes: the fuel the session gets is enough *)
+Lemma opts_count l : 4 * zlen l <= opts_bytes l.
+Proof.
+  induction l as [|x t IH]; [cbn; lia|]. cbn [opts_bytes fold_right]. fold (opts_bytes t).
+  replace (zlen (x :: t)) with (zlen t + 1) by (unfold zlen; cbn [length]; lia). pose proof (opt_size_pos x). lia.
+Qed.
+
+Lemma zlen_enc_idb w : wif_ok w -> 32 <= zlen (enc_idb w).
+Proof.
+  intros Hw. destruct (enc_idb_shape w Hw) as (E & _ & HL). cbv zeta in *. rewrite E.
+  rewrite !zlen_app, !zlen_le_bytes. pose proof (zlen_nonneg (opts_enc (idb_options w))). lia.
+Qed.
+
+Lemma zlen_enc_epb ifs ifid ts caplen len data o : wf_packet ifs ifid ts caplen len data o ->
+  32 <= zlen (enc_epb ifid ts caplen len data o) /\ 4 * zlen (popts_to_options o) <= zlen (enc_epb ifid ts caplen len data o).
+Proof.
+  intros Hw. destruct (enc_epb_shape _ _ _ _ _ _ _ Hw) as (E & HL & _). cbv zeta in *. rewrite E.
+  rewrite !zlen_app, !zlen_le_bytes. pose proof (zlen_nonneg data). pose proof (pad4_range (zlen data)).
+  rewrite zlen_zeros by lia. pose proof (opts_count (popts_to_options o)).
+  assert (opts_bytes (popts_to_options o) <= zlen (opts_enc (popts_to_options o)) + 4)
+    by (rewrite zlen_opts_enc; destruct (popts_to_options o); cbn [opts_bytes fold_right]; lia).
+  lia.
+Qed.
+
+Lemma script_sizes : forall ops ws, ops_ok ws ops ->
+  32 * zlen ops <= zlen (enc_ops ops)
+  /\ Forall (fun op => match op with WPacket _ _ _ _ _ o => 4 * zlen (popts_to_options o) <= zlen (enc_ops ops) | _ => True end) ops.
+Proof.
+  induction ops as [|op t IH]; intros ws Hok; [split; [cbn; lia|constructor]|].
+  replace (zlen (op :: t)) with (zlen t + 1) by (unfold zlen; cbn [length]; lia).
+  unfold enc_ops. cbn [map concat]. rewrite zlen_app. fold (enc_ops t).
+  destruct op as [w|ifid ts caplen len data o|ifid st|ty pl]; cbn [ops_ok] in Hok; try contradiction.
+  - destruct Hok as (Hw & Hok). destruct (IH _ Hok) as (I1 & I2). pose proof (zlen_enc_idb w Hw). cbn [enc_op].
+    split; [lia|]. constructor; [exact I|]. eapply Forall_impl; [|exact I2]. intros [] Ha; auto. lia.
+  - destruct Hok as (Hw & Hok). destruct (IH _ Hok) as (I1 & I2). destruct (zlen_enc_epb _ _ _ _ _ _ _ Hw) as (Z1 & Z2). cbn [enc_op].
+    pose proof (zlen_nonneg (enc_ops t)).
+    split; [lia|]. constructor; [lia|]. eapply Forall_impl; [|exact I2]. intros [] Ha; auto. lia.
+Qed.
+
+(* ---------------------------------------------------------------- C14_ng_roundtrip for scripts of AddInterface / WritePacketWithOptions *)
+Theorem roundtrip_file ro sec i0 ops :
+  ro_mixed ro = true -> sec_ok sec -> ops_ok [] (WAddIf i0 :: ops) -> zlen ops < 4294967290 ->
+  let r := write_cut_read ro sec i0 ops (length (write_file sec i0 ops)) in
+  fst (fst (fst r)) = 0 /\ snd (fst r) = 1 /\ snd (fst (fst r)) = exp_pkts [] (WAddIf i0 :: ops).
+Proof.
+  intros Hmix Hsec Hok Hb. cbv zeta. unfold write_cut_read. rewrite firstn_all. rewrite session_flat_d.
+  destruct (write_file_shape sec i0 ops Hok Hb) as (Hfile & _). rewrite Hfile.
+  set (script := WAddIf i0 :: ops) in *.
+  destruct (script_sizes script [] Hok) as (Sz1 & Sz2).
+  destruct (enc_shb_shape sec Hsec) as (Eshb & HLs). cbv zeta in *.
+  assert (28 <= zlen (enc_shb sec)) as Hshb.
+  { rewrite Eshb. rewrite !zlen_app, !zlen_le_bytes. change (zlen [10;13;13;10]) with 4. change (zlen [77;60;43;26]) with 4.
+    change (zlen shb_fixed) with 12. pose proof (zlen_nonneg (opts_enc (shb_options sec))). lia. }
+  set (F := fuel_for (zlen (enc_shb sec ++ enc_ops script))).
+  assert (Z.of_nat F = zlen (enc_shb sec) + zlen (enc_ops script) + 2) as HF
+    by (unfold F, fuel_for; rewrite zlen_app; pose proof (zlen_nonneg (enc_ops script)); lia).
+  unfold session. rewrite run_d_bind.
+  change (run_d (newReader ro F init_rst) (enc_shb sec ++ enc_ops script)) with (exec (newReader ro F) init_rst (enc_shb sec ++ enc_ops script)).
+  pose proof (zlen_nonneg (enc_ops script)) as Hnn. clearbody F.
+  assert (6 < F)%nat as HF6 by lia.
+  destruct (exec_newReader ro F sec (enc_ops script) Hmix Hsec HF6) as (s0 & E0 & Q1 & Q2 & Q3).
+  rewrite E0. cbn [snd fst]. rewrite run_d_bind.
+  assert (fuel_ok F script) as Hfo.
+  { split; [lia|]. eapply Forall_impl; [|exact Sz2]. intros [] Ha; auto. unfold zlen in *. lia. }
+  assert (zlen script = zlen ops + 1) as Hsl by (unfold script, zlen; cbn [length]; lia).
+  assert (length script < F)%nat as HlF by (unfold zlen in *; lia).
+  destruct (read_all_script ro F 1 [] Hmix (tail_ends_nil ro F) (length script) script [] s0 [] F
+              (le_n _) HlF HlF (conj Q1 Q2) Hok Hfo) as (s' & l' & E).
+  rewrite app_nil_r in E. rewrite E. cbn [fst snd run_d rev app]. repeat split; reflexivity.
+Qed.
